@@ -19,7 +19,7 @@ import ast
 from ..model import AnalysisError, dotted, unparse, walk_local
 from ..engines import pattern, flow
 from ..engines.linform import linform, rename, canon, lin_str
-from ._common import dim_generic
+from ._common import dim_generic, resolve_local
 
 FORMULA_SITES = [  # (module, function, renaming to the canonical names crys / i / j / dx / chem)
     ('crystal', 'Crystal.jumpnetwork2lattice', {'self': 'crys'}),
@@ -54,11 +54,14 @@ def run(model, rep, tier):
     for mname, q, sig in FORMULA_SITES:
         m = model.mod(mname)
         f = model.func(mname, q)
+        # the rounded expression, with geometric temporaries (locals bound once to something built from invlatt / basis)
+        # written out
+        geo = lambda d: any(k in unparse(d) for k in ('invlatt', '.basis'))
         cands = [c for c in ast.walk(f) if isinstance(c, ast.Call) and (dotted(c.func) or '').endswith('round') and c.args
-                 and 'invlatt' in unparse(c.args[0])]
+                 and 'invlatt' in unparse(resolve_local(f, c.args[0], only=geo))]
         if len(cands) != 1:
             raise AnalysisError('%s.%s: lattice-vector formula not found' % (mname, q))
-        lf = linform(rename(cands[0].args[0], sig))
+        lf = linform(rename(resolve_local(f, cands[0].args[0], only=geo), sig))
         par = getattr(cands[0], '_parent', None)
         isint = isinstance(par, ast.Attribute) and par.attr == 'astype'
         if ref is None:
@@ -79,7 +82,7 @@ def run(model, rep, tier):
         a = [n for n in walk_local(f) if isinstance(n, ast.Assign) and unparse(n.targets[0]) == 'nmax']
         if len(a) != 1:
             raise AnalysisError('%s.%s: nmax definition not found' % (mname, q))
-        forms[q] = (canon(rename(a[0].value, sig)), a[0], model.mod(mname))
+        forms[q] = (canon(rename(_anon_comp(a[0].value), sig)), a[0], model.mod(mname))
     (ca, na, ma), (cb, nb, mb) = forms['Crystal.jumpnetwork'], forms['makeclusters']
     ok = ca == cb
     rep.ob('search-range-formula', ma, na, 'jumpnetwork nmax = %s' % unparse(na.value), ok,
@@ -130,6 +133,22 @@ def run(model, rep, tier):
            engine='flow', qual='Crystal.jumpnetwork')
     dim_generic(model, rep, [('crystal', 'Crystal.jumpnetwork'), ('crystal', 'Crystal.jumpnetwork2lattice'), ('crystal', 'Crystal.sitelist')],
                 min_functions=3)
+
+
+def _anon_comp(e):
+    """comprehension variables renamed _0, _1, ... (sibling formulas are compared up to the name of the running index)"""
+    import copy
+    e = copy.deepcopy(e)
+    names = {}
+    for c in ast.walk(e):
+        if isinstance(c, ast.comprehension):
+            for t in ast.walk(c.target):
+                if isinstance(t, ast.Name) and t.id not in names:
+                    names[t.id] = '_%d' % len(names)
+    for n in ast.walk(e):
+        if isinstance(n, ast.Name) and n.id in names:
+            n.id = names[n.id]
+    return e
 
 
 CR = 'onsager/crystal.py'
